@@ -20,6 +20,14 @@ def _digits_to_int(digits: str) -> int:
     return int(significant[:4])
 
 
+def _describe_number(number: int) -> str:
+    """The number for a message. Rendering an int with thousands of digits raises ValueError
+    (interpreter limit for int -> str conversion), so only small numbers are spelled out."""
+    if -9999 <= number <= 9999:
+        return str(number)
+    return "(a number with more than four digits)"
+
+
 class _MonthInterpolator(BlockMiddleware, abc.ABC):
     """Abstract class to handle month-conversions."""
 
@@ -103,7 +111,7 @@ class MonthLongStringMiddleware(_MonthInterpolator):
             if v < 1 or v > 12:
                 return (
                     month_field.value,
-                    f"month-field unchanged - unknown month {v}",
+                    f"month-field unchanged - unknown month {_describe_number(v)}",
                 )  # Nothing we can do here
             return _MONTH_FULL[v - 1], "transformed int-month to str-month"
         elif isinstance(v, str):
@@ -146,7 +154,7 @@ class MonthAbbreviationMiddleware(_MonthInterpolator):
         if isinstance(v, int):
             if v < 1 or v > 12:
                 # Nothing we can do here
-                return month_field.value, f"month-field unchanged - unknown month {v}"
+                return month_field.value, f"month-field unchanged - unknown month {_describe_number(v)}"
             return _MONTH_ABBREV[v - 1], "transformed int-month to abbreviated month"
         elif isinstance(v, str):
             v_lower = v.lower()
